@@ -63,7 +63,10 @@ def main() -> int:
         return 0
     lemmas = None
     if hasattr(mod, "lemmas") and not a.only:
-        lemmas = mod.lemmas(tier, a.seed)
+        try:
+            lemmas = mod.lemmas(tier, a.seed)
+        except Exception as ex:  # pylint: disable=broad-except
+            lemmas = [{"name": "lemmas", "status": "inconclusive: %s: %s" % (type(ex).__name__, ex), "time_s": 0.0}]
     extra = mod.extra_evidence(tier) if hasattr(mod, "extra_evidence") else None
     return runner.run_check(
         a.prop, conds, tier, a.seed, a.jobs, extra=extra, lemma_results=lemmas, verbose=a.verbose,
